@@ -95,7 +95,8 @@ Walk(D, st, j, n) ==
 
 \* the minimal sets of named deviations that explain the whole run
 Explaining ==
-  LET ex == {D \in DSets \ {{}} : Walk(D, ImplInit, 1, Len(Events))} IN
+  \* (UNION of explicit sets: a set comprehension would re-evaluate Walk on every membership test)
+  LET ex == UNION {IF Walk(D, ImplInit, 1, Len(Events)) THEN {D} ELSE {} : D \in DSets \ {{}}} IN
   {D \in ex : \A E \in ex : ~(E \subseteq D /\ E # D)}
 Explainable(e) == e.op = "access" /\ ~e.exc /\ e.a = "media"
 
